@@ -120,18 +120,19 @@ def cluster(draw, cfg, rmax, dtabs, t, periodic, hash0, mass_lo=1e-6, rmin_dec=4
 
 @st.composite
 def twins(draw, cfg, rmax, dtabs, t, periodic, hash0):
-    """Two tight groups of 2-4 near-equal large particles that merge within their group first; the merged bodies
-    (radii grown beyond anything that was ever added) then overlap while approaching each other."""
+    """Two tight groups of 2-4 large particles of similar radius (one heavy, the others light, so that the merged
+    body hardly moves) that merge within their group first; the merged bodies (radii grown beyond anything that was
+    ever added) then overlap while approaching each other."""
     L = cfg["L"]
     centre = [draw(S.floats(-0.35, 0.35)) * L[ax] for ax in range(3)]
     if periodic and draw(st.booleans()):
         ax = draw(st.integers(0, 2))
         centre[ax] = draw(st.sampled_from([0.5, -0.5])) * L[ax] + draw(S.floats(-1.0, 1.0)) * rmax
     d = _unit(draw(S.floats(-1, 1)), draw(S.floats(-1, 1)), draw(S.floats(-1, 1)))
-    ks = [draw(st.integers(2, 4)), draw(st.integers(2, 4))]
-    rad = [[rmax * draw(S.floats(0.8, 1.0)) for _ in range(k)] for k in ks]
+    ks = [draw(st.sampled_from([2, 3, 4, 4])), draw(st.sampled_from([2, 3, 4, 4]))]
+    rad = [[rmax * draw(S.floats(0.85, 1.0)) for _ in range(k)] for k in ks]
     rg = [sum(r ** 3 for r in rr) ** (1.0 / 3.0) for rr in rad]
-    D = draw(S.floats(0.55, 0.97)) * (rg[0] + rg[1])
+    D = draw(st.one_of(S.floats(0.55, 0.98), S.floats(0.85, 0.98), S.floats(0.85, 0.98))) * (rg[0] + rg[1])
     u = draw(S.logfloats(1e-2, 3.0)) * rmax / dtabs
     out = []
     for g in (0, 1):
@@ -140,7 +141,7 @@ def twins(draw, cfg, rmax, dtabs, t, periodic, hash0):
         vg = [-sgn * u * d[i] for i in range(3)]
         for j, r in enumerate(rad[g]):
             e = _unit(draw(S.floats(-1, 1)), draw(S.floats(-1, 1)), draw(S.floats(-1, 1)))
-            off = draw(S.floats(0.05, 0.3)) * rmax
+            off = draw(S.floats(0.02, 0.2)) * rmax
             x = [cg[i] + off * e[i] for i in range(3)]
             v = [vg[i] - 0.3 * u * e[i] for i in range(3)]
             pl = place(x, v, cfg, t)
@@ -148,7 +149,8 @@ def twins(draw, cfg, rmax, dtabs, t, periodic, hash0):
                 continue
             x, v = pl
             out.append({"x": x[0], "y": x[1], "z": x[2], "vx": v[0], "vy": v[1], "vz": v[2],
-                        "m": draw(S.floats(0.5, 1.0)), "r": r, "hash": hash0 + 4 * g + j})
+                        "m": draw(S.floats(0.5, 1.0)) if j == 0 else draw(S.logfloats(1e-9, 1e-3)), "r": r,
+                        "hash": hash0 + 4 * g + j})
     return out
 
 
@@ -170,20 +172,33 @@ def system(draw, modes=MODES, nclusters=(1, 3), rmax_choices=(0.01, 0.04, 0.1, 0
            "rmax": rmax}
     parts = []
     ncl = draw(st.integers(*nclusters))
+    has_twins = False
     for c in range(ncl):
         if p_twins and draw(st.integers(1, p_twins)) == 1:
+            has_twins = True
             parts += draw(twins(cfg, rmax, abs(dt), t0 + dt, periodic, 1 + 16 * c))
         else:
             parts += draw(cluster(cfg, rmax, abs(dt), t0 + dt, periodic, 1 + 16 * c))
     extras = []
     for e in range(extra):
-        extras.append(draw(cluster(cfg, rmax, abs(dt), t0 + dt, periodic, 1 + 16 * (ncl + e))))
+        ex = draw(cluster(cfg, rmax, abs(dt), t0 + dt, periodic, 1 + 16 * (ncl + e)))
+        have = {(q["x"], q["y"], q["z"]) for q in parts} | {(q["x"], q["y"], q["z"]) for g in extras for q in g}
+        extras.append([q for q in ex if (q["x"], q["y"], q["z"]) not in have])
     if tree:
         ndust = draw(st.sampled_from([0, 60, 150, dust_max]))
     else:
         ndust = draw(st.sampled_from([0, 0, 10, 40]))
-    dust = {"n": ndust, "seed": draw(st.integers(0, 2 ** 31 - 1)), "spread": draw(st.sampled_from([0.7, 1.5, 3.0, 6.0])),
-            "clear": draw(st.sampled_from([0.0, 1.7]))}
+    if has_twins and tree:
+        # merged bodies must meet deep inside a finely divided tree: dense dust right next to them, moving away
+        dust = {"n": draw(st.sampled_from([60, 150, dust_max, dust_max])), "seed": draw(st.integers(0, 2 ** 31 - 1)),
+                "spread": draw(st.sampled_from([0.2, 0.3, 0.3, 0.5, 1.5])), "clear": 0.0,
+                "recede": draw(st.sampled_from([True, True, False])),
+                "vfac": draw(st.sampled_from([1e-3, 0.05, 0.3, 1.0]))}
+    else:
+        dust = {"n": ndust, "seed": draw(st.integers(0, 2 ** 31 - 1)),
+                "spread": draw(st.sampled_from([0.3, 0.7, 1.5, 3.0, 6.0])),
+                "clear": draw(st.sampled_from([0.0, 1.7])), "recede": draw(st.booleans()),
+                "vfac": draw(st.sampled_from([1e-3, 0.05, 0.3, 1.0]))}
     return {"cfg": cfg, "particles": parts, "extras": extras, "dust": dust,
             "keep_sorted": 0 if tree else draw(st.sampled_from([0, 1])),
             "rand_seed": draw(st.integers(0, 2 ** 31 - 1))}
@@ -200,11 +215,14 @@ def make_dust(case):
     rs = np.random.RandomState(d["seed"])
     out = []
     t = cfg["t0"] + cfg["dt"]
-    vref = cfg["rmax"] / abs(cfg["dt"])
+    vref = d.get("vfac", 1.0) * cfg["rmax"] / abs(cfg["dt"])
     for k in range(d["n"]):
         c = parts[rs.randint(len(parts))]
         off = rs.normal(size=3) * d["spread"] * cfg["rmax"]
         v = rs.normal(size=3) * 0.3 * vref
+        if d.get("recede"):
+            # moving away from its collider: deepens the tree next to it without being swallowed by it
+            v = v + off / (np.sqrt((off * off).sum()) + 1e-300) * vref * (0.5 + 1.5 * rs.uniform())
         pl = place([c["x"] + off[0], c["y"] + off[1], c["z"] + off[2]], [c["vx"] + v[0], c["vy"] + v[1], c["vz"] + v[2]],
                    cfg, t)
         if pl is None:
@@ -274,12 +292,30 @@ def build_sim(case, integrator="none"):
     return sim
 
 
+class SkipCase(Exception):
+    pass
+
+
 def step(sim):
     """One step; a library error message on a valid configuration is a finding, not a harness error."""
     try:
         sim.step()
     except RuntimeError as e:
+        if "same coordinates" in str(e):
+            # two particles ended up at exactly the same point (e.g. two identical clusters merged identically):
+            # the tree documents that it cannot hold them; not an input this property speaks about
+            raise SkipCase("two particles at exactly the same point")
         raise Violation("library reported an error during a step on a valid configuration: %s" % e)
+
+
+def skipping(fn):
+    def run(case, ctx):
+        try:
+            return fn(case, ctx)
+        except SkipCase as e:
+            ctx.skip(str(e))
+    run.__name__ = fn.__name__
+    return run
 
 
 def nontrivial(ctx, case, s, must, R, t, dtl):
@@ -316,6 +352,12 @@ def maxrad(sim):
         return [sim.max_radius0, sim.max_radius1]
     except AttributeError:
         return None
+
+
+def coll_idx(s):
+    """Particles evaluated as first member of a pair by the reference: everything except zero-radius dust."""
+    import numpy as np
+    return np.nonzero((s["r"] > 0) | (s["hash"] < 100000))[0]
 
 
 SFIELDS = ("x", "y", "z", "vx", "vy", "vz", "m", "r", "last_collision", "hash")
@@ -369,7 +411,7 @@ def run_detect(case, ctx):
         raise Violation("a step with a resolver that returns 0 changed the particles", N0=len(s0), N1=len(s1))
     if cfg["mode"] in ("direct", "line") and any(s0["hash"][i] != s1["hash"][i] for i in range(len(s0))):
         raise Violation("a step without a tree and without removals reordered the particles")
-    must, maybe = R.classify_pairs(s0, cfg, t, cfg["mode"], dtl)
+    must, maybe = R.classify_pairs(s0, cfg, t, cfg["mode"], dtl, colliders=coll_idx(s0))
     G = set()
     n = len(s0)
     rep = []
@@ -423,7 +465,7 @@ def run_remove_fixup(case, ctx):
     if R.has_tie(cfg, t_pred):
         ctx.skip("shear image offset on its normalisation branch point")
         return
-    must, maybe = R.classify_pairs(s0, cfg, t_pred, cfg["mode"], dtl)
+    must, maybe = R.classify_pairs(s0, cfg, t_pred, cfg["mode"], dtl, colliders=coll_idx(s0))
     decide = case["decide"]
     removed = set()
     handed = set()
@@ -487,6 +529,8 @@ def run_remove_fixup(case, ctx):
             sim.update_tree()
             sim.process_messages()
         except RuntimeError as e:
+            if "same coordinates" in str(e):
+                raise SkipCase("two particles at exactly the same point")
             raise Violation("tree update after removals reported an error: %s" % e)
         s1 = R.snapshot(sim)
     got = [int(h) for h in s1["hash"]]
@@ -655,7 +699,7 @@ def run_merge_hist(case, ctx):
             ctx.skip("search at t == 0 (the initial value of last_collision)")
             return
         dtl = sim.dt
-        must, maybe = R.classify_pairs(s0, cfg, t_pred, mode, dtl)
+        must, maybe = R.classify_pairs(s0, cfg, t_pred, mode, dtl, colliders=coll_idx(s0))
         del calls[:]
         step(sim)
         nsteps += 1
@@ -762,9 +806,10 @@ def run_merge_hist(case, ctx):
 
 hist_ops = st.lists(st.one_of(st.just(("step",)), st.just(("step",)), st.just(("step",)),
                               st.tuples(st.just("drift"), st.sampled_from([0.3, 1.0, 3.0])),
-                              st.just(("add",))), min_size=1, max_size=7).map(lambda l: [("step",)] + l + [("step",)])
+                              st.just(("add",))), min_size=1, max_size=8).map(lambda l: [("step",)] + l + [("step",)])
 
-merge_case = system(rmax_choices=(0.01, 0.04, 0.1), extra=2, nclusters=(1, 3), p_twins=3).flatmap(
+merge_case = system(modes=["direct", "tree", "tree", "line", "linetree"], rmax_choices=(0.01, 0.04, 0.1), extra=2,
+                    nclusters=(1, 3), p_twins=2).flatmap(
     lambda c: st.fixed_dictionaries({"ops": hist_ops, "wrap": st.booleans()}).map(lambda d: dict(c, **d)))
 
 
@@ -825,7 +870,7 @@ def run_bounce(case, ctx):
             ctx.skip("shear image offset on its normalisation branch point")
             return
         dtl = sim.dt
-        must, maybe = R.classify_pairs(s0, cfg, t_pred, mode, dtl)
+        must, maybe = R.classify_pairs(s0, cfg, t_pred, mode, dtl, colliders=coll_idx(s0))
         del calls[:]
         step(sim)
         nsteps += 1
@@ -959,10 +1004,10 @@ bounce_case = system(dust_max=150).flatmap(
 
 def subs(tier):
     return [
-        Sub("detect", run_detect, strategy=system(), quick=2400, thorough=48000, shards_quick=8, shards_thorough=16),
-        Sub("remove_fixup", run_remove_fixup, strategy=fixup_case, quick=2000, thorough=40000, shards_quick=8,
+        Sub("detect", skipping(run_detect), strategy=system(), quick=2400, thorough=48000, shards_quick=8, shards_thorough=16),
+        Sub("remove_fixup", skipping(run_remove_fixup), strategy=fixup_case, quick=2000, thorough=40000, shards_quick=8,
             shards_thorough=16),
-        Sub("merge_hist", run_merge_hist, strategy=merge_case, quick=1600, thorough=32000, shards_quick=8,
+        Sub("merge_hist", skipping(run_merge_hist), strategy=merge_case, quick=1600, thorough=32000, shards_quick=8,
             shards_thorough=16),
-        Sub("bounce", run_bounce, strategy=bounce_case, quick=1200, thorough=24000, shards_quick=8, shards_thorough=16),
+        Sub("bounce", skipping(run_bounce), strategy=bounce_case, quick=1200, thorough=24000, shards_quick=8, shards_thorough=16),
     ]
